@@ -342,7 +342,7 @@ class RoutingActivationResponse:
             target_address,
             routing_activation_response_code,
             reserved,
-        ) = struct.unpack("!HHBI", data)
+        ) = struct.unpack("!HHBI", data[:9])  # The optional OEM specific field is ignored
         if reserved != 0x00000000:
             raise ValueError("reserved field contains data")
         return cls(
